@@ -1219,7 +1219,10 @@ its bump pointer, large bump pointer and hole cursor across collections. The ful
   *for every ImmixSpace of every plan: no allocator is ever handed / bumps into a line that may hold a
    live object, and every line of a reachable object lies in an allocated block and is marked*
 
-is therefore FALSE on the real code for the `nonmoving` space of ConcurrentImmix (hx_gc program:
+was therefore FALSE on the pinned code for the `nonmoving` space of ConcurrentImmix — repaired since by the
+`fix:` commit "ConcurrentImmix resets the non-moving space's allocator at prepare/release" (0ea5616), so that on
+this tree EVERY allocator of every ImmixSpace is reset at release and `hole_avoids_live` (= `Step.release` is the only
+release there is) is the full statement — (hx_gc program on the pinned code:
 `cfg plan ConcurrentImmix; init; bind 0; alloc 0 1 0 64 8 0 NonMoving 63; root 0 63 null; gc 0 1;
 alloc 0 2 0 64 8 0 NonMoving 0; gc 0 1; immix; snap` — object 2 is bump-allocated at 0x80000400060 in
 the block the first GC released; it is reachable, its block is Unallocated and the space accounts 0
@@ -1254,8 +1257,9 @@ theorem conc_nonmoving_allocator_not_reset_witness :
     decide
   exact ⟨h1, h2, fun hi => h2 (hi.freshI 0 0 h1).1⟩
 
-/-- The proved part of the property: it holds in every state reachable through `Step`, whose `release`
-resets every allocator of the space. -/
+/-- On the pinned tree this was the proved *part* of the property (spaces whose allocators are reset at release);
+on this tree every space is such a space, so this is the full statement, kept under its old name (the check lists it)
+beside `hole_avoids_live`. -/
 theorem hole_avoids_live_partial {g : G} (h : Reachable g) (b l st en : Nat) (hc : g.s.cursor b = some l)
     (hh : (g.s.holeStep b l).2 = some (st, en)) :
     l ≤ st ∧ st < en ∧ en ≤ LINES ∧
